@@ -188,6 +188,17 @@ func genTokenCase(t *rapid.T) TokenCase {
 		if rapid.IntRange(0, 3).Draw(t, "garbage") == 0 {
 			c.Data = genBytes(t, "garbage", 0, 60) // sealed as is instead of the ASN.1 body
 		}
+		// which of the two connection IDs is over-long (drawn last: older replay files keep their meaning)
+		switch rapid.IntRange(0, 3).Draw(t, "oversized-which") {
+		case 1:
+			if len(c.Auth.OriginalDestConnectionID) > 20 {
+				c.Auth.RetrySrcConnectionID, c.Auth.OriginalDestConnectionID = c.Auth.OriginalDestConnectionID, c.Auth.RetrySrcConnectionID
+			}
+		case 2:
+			if len(c.Auth.OriginalDestConnectionID) > 20 {
+				c.Auth.RetrySrcConnectionID = append([]byte(nil), c.Auth.OriginalDestConnectionID...)
+			}
+		}
 	}
 	return c
 }
@@ -336,14 +347,9 @@ func checkToken(c TokenCase, u *vf.Unit) *vf.Verdict {
 			u.Class("auth-decoded")
 			return nil
 		})
-		if isCIDPanic(v) && (oversized || len(c.Data) != 0) && (!strict() || u.KnownHit("C08/token/authentic-oversized-cid-panic")) {
-			// An AUTHENTIC Retry token (sealed with the server's own key) that carries a connection ID
-			// longer than 20 bytes makes DecodeToken panic in protocol.ParseConnectionID. Only the holder
-			// of the token key can produce it, so it is not attacker-reachable; recorded in NOTES.md and
-			// raised only with VERIF_C08_STRICT=1.
-			u.Class("auth-oversized-cid-panics")
-			return nil
-		}
+		// An AUTHENTIC Retry token (sealed with the server's own key) that carries a connection ID longer than 20
+		// bytes used to make DecodeToken panic in protocol.ParseConnectionID (repaired in /repo 0d728da): a panic is
+		// a violation of "never panics" for either connection ID field.
 		if isCIDPanic(v) {
 			v.Sig = "C08/token/authentic-oversized-cid-panic"
 		}
